@@ -469,6 +469,7 @@ type Config struct {
 	TypedObs  bool     `json:"typedobs"`  // register observers through Observer1..4 where the observed set allows
 	Arity     bool     `json:"arity"`     // driver: draw component sets from the instantiated tuples of all arities
 	Grid      int      `json:"grid"`      // percent of driver operations drawn coverage-guided (grid.go)
+	Unbatch   bool     `json:"unbatch"`   // execute batch operations as the single-entity operations they abbreviate (C06)
 	BatchN    int      `json:"batchn"`    // driver: maximum size of NewBatch (default 5)
 	ObsP      int      `json:"obsp"`      // driver: per-mille probability of an observer operation per step
 	RegMax    int      `json:"regmax"`    // registry histories: register at most this many types (0: beyond the build's limit)
@@ -1314,6 +1315,16 @@ func (x *Exec) dispatch(op GenOp, e ecs.Entity, tg map[string]ecs.Entity, lo *Lo
 	u := w.Unsafe()
 	unsafePath := x.Cfg.Path == "unsafe"
 	noinit := op.Mode == "noinit"
+	if x.Cfg.Unbatch {
+		switch op.Op {
+		case "AddBatch", "ExchangeBatch", "RemoveBatch", "SetRelBatch", "KillBatch":
+			if x.unbatch(op, tg, lo) {
+				x.Cover["unbatched."+op.Op]++
+				return
+			}
+			x.Cover["unbatch-not-applicable."+op.Op]++
+		}
+	}
 	switch op.Op {
 	case "New":
 		var h ecs.Entity
